@@ -14,6 +14,7 @@ import (
 	"time"
 
 	"github.com/Comcast/rulio/core"
+	"github.com/Comcast/rulio/service"
 	"github.com/Comcast/rulio/sys"
 	"verif/harness/enc"
 )
@@ -23,7 +24,8 @@ type Config struct {
 	Store    string // "mem" | "bolt"
 	MaxFacts int
 	Locs     []string
-	Via      string // "" (core.Location directly) | "system" (through sys.System)
+	Via      string // "" (core.Location directly) | "system" (through sys.System) | "http" (service layer)
+	Encoding string // for http: one of Encodings, or "all" to rotate
 	Sys      SysConfig
 	BoltFile string
 }
@@ -84,6 +86,9 @@ type World struct {
 	Events   []map[string]interface{}
 	Prefix   string // storage-level name prefix making this world's names unique
 	Sys      *sys.System
+	HTTP     *service.HTTPService
+	Svc      *service.Service
+	nreq     int
 	Cron     *RecCron
 	closers  []func()
 }
@@ -133,13 +138,18 @@ func (w *World) newLocation(name string) (*core.Location, error) {
 func NewWorld(cfg Config, r *Recorder, store core.Storage) (*World, error) {
 	w := &World{Cfg: cfg, R: r, Store: store, Locs: map[string]*core.Location{}, RO: map[string]bool{}}
 	w.Provider = core.NewSimpleLocationProvider(w.Locs)
-	if cfg.Via == "system" {
+	if cfg.Via == "system" || cfg.Via == "http" {
 		if err := w.initSystem(cfg.Sys); err != nil {
 			return nil, err
 		}
 	}
+	if cfg.Via == "http" {
+		if err := w.initHTTP(); err != nil {
+			return nil, err
+		}
+	}
 	for _, n := range cfg.Locs {
-		if cfg.Via == "system" {
+		if cfg.Via != "" {
 			break
 		}
 		loc, err := w.newLocation(n)
@@ -153,7 +163,7 @@ func NewWorld(cfg Config, r *Recorder, store core.Storage) (*World, error) {
 		names = append(names, n)
 	}
 	w.Events = append(w.Events, map[string]interface{}{"ev": "reset", "locs": names,
-		"state": cfg.State, "store": cfg.Store, "via": cfg.Via, "check": cfg.Via == "system" && cfg.Sys.CheckExistence,
+		"state": cfg.State, "store": cfg.Store, "via": cfg.Via, "check": cfg.Via != "" && cfg.Sys.CheckExistence,
 		"ttl": cfg.Sys.TTL})
 	return w, nil
 }
@@ -172,6 +182,8 @@ type Op struct {
 }
 
 type Res struct {
+	Enc   string // how the request was rendered (service layer)
+	Bad   bool   // the response could not be understood at all
 	Tree  []map[string]interface{}
 	Vals  []interface{}
 	Msg   string
@@ -320,6 +332,15 @@ func (w *World) Do(op Op) Res {
 	loc := w.Locs[op.Loc]
 	res := Res{C: "ok"}
 	val := copyMap(op.Val) // the code may modify what it is given
+	if w.HTTP != nil {
+		w.nreq++
+		enc := w.Cfg.Encoding
+		if enc == "" || enc == "all" {
+			enc = Encodings[w.nreq%len(Encodings)]
+		}
+		w.doHTTP(op, &res, enc, prefixes[(w.nreq/len(Encodings))%len(prefixes)])
+		goto recorded
+	}
 	if w.Sys != nil {
 		w.doSys(ctx, op, &res)
 		goto recorded
@@ -440,7 +461,10 @@ recorded:
 		"inh": op.Inh, "wk": op.WK, "rk": op.RK, "now": now, "flag": op.Flag, "names": names,
 		"res": map[string]interface{}{"c": res.C, "id": res.Id, "val": t.Encode(res.Val),
 			"found": found, "ids": ids, "n": res.N, "tree": nonNilMaps(res.Tree), "vals": nonNil(res.Vals)},
-		"disk": w.diskIds(), "msg": res.Msg,
+		"disk": w.diskIds(), "msg": res.Msg, "enc": res.Enc,
+	}
+	if res.Bad {
+		ev["res"].(map[string]interface{})["c"] = "unintelligible"
 	}
 	if after != now {
 		ev["void"] = true // crossed a second boundary: the caller discards the trace
